@@ -12,6 +12,7 @@ from symfc.utils.matrix_tools import permutation_dot_lat_trans
 from symfc.utils.permutation_tools import get_combinations
 from symfc.utils.solver_funcs import get_batch_slice
 from symfc.utils.utils import get_indep_atoms_by_lat_trans
+from symfc.utils._verif_hooks import _verif_override
 from symfc.utils.utils_O4 import get_atomic_lat_trans_decompr_indices_O4
 
 try:
@@ -342,6 +343,7 @@ def compressed_projector_sum_rules_O4_stable(
         nonzero = fc_cutoff.nonzero_atomic_indices_fc4()
         nonzero = nonzero.reshape((natom, NNN)).T.reshape(-1)
 
+    n_batch = _verif_override("SUMRULE_NBATCH", n_batch)
     batch_size = optimize_batch_size_sum_rules_O4(natom, n_batch=n_batch)
     abcd = np.arange(81)
     for begin, end in zip(*get_batch_slice(NNNN, batch_size)):
@@ -479,6 +481,7 @@ def compressed_projector_sum_rules_O4(
         nonzero_c = nonzero_c.reshape((natom, NNN)).T.reshape(-1)
         nonzero = nonzero & nonzero_c
 
+    n_batch = _verif_override("SUMRULE_NBATCH", n_batch)
     batch_size = optimize_batch_size_sum_rules_O4(natom, n_batch=n_batch)
     abcd = np.arange(81)
     for begin, end in zip(*get_batch_slice(NNNN, batch_size)):
